@@ -67,6 +67,22 @@ var c42Scenarios = []*c42Scenario{
 		Alpha:  []string{"W1", "W2", "W3", "R0:1:a1", "R0:1:a2", "R0:1:aX", "R0:1:b1", "E0", "L"},
 		DepthQ: 5, DepthT: 7, Props: []string{"C42", "C43"},
 	},
+	// C43 on a fallback server and after the revert: watch / cancel (incl. the
+	// last watcher of a resource while another one of the type stays watched) /
+	// watch again, judged on the request ledger of the ACTIVE server and on the
+	// watcher callbacks.
+	{ // both resources watched, primary failed before any response, S1 active
+		Name: "fb-watch", NServers: 2, Slow: -1, Watchers: c42WSame, Dt: time.Second, ActiveOnly: true,
+		Prefix: []string{"W1", "W3", "E0"},
+		Alpha:  []string{"W1", "W2", "W3", "R1:1:a1b1", "R1:1:a1", "E1", "A", "R0:1:a1b1"},
+		DepthQ: 4, DepthT: 6, Props: []string{"C43"},
+	},
+	{ // ... then the primary came back and delivered: reverted, S1 released
+		Name: "fb-revert-watch", NServers: 2, Slow: -1, Watchers: c42WSame, Dt: time.Second, ActiveOnly: true,
+		Prefix: []string{"W1", "W3", "E0", "A", "R0:1:a1b1"},
+		Alpha:  []string{"W1", "W2", "W3", "R0:1:a1b1", "R0:1:a2", "E0", "C0", "A"},
+		DepthQ: 4, DepthT: 5, Props: []string{"C43"},
+	},
 	// Multi-server scenarios. The "-strict" ones enumerate everything and keep
 	// reporting the two places where the unchanged client leaves the statement
 	// (D2, D3 in claims.json); their depth is the same in both tiers so that the
@@ -173,6 +189,14 @@ func c42Compare(sc *c42Scenario, ev c42Ev, exp *c42Exp, obs *c42Obs) (fails []c4
 		fails = append(fails, c42Fail{Prop: prop, Class: class, Desc: fmt.Sprintf(f, a...)})
 	}
 	evk := string(ev.K)
+	// name lists are judged on every server, or (ActiveOnly scenarios) only on
+	// the server that is active at the end of the step
+	addName := func(srv int, prop, class, f string, a ...any) {
+		if sc.ActiveOnly && srv != exp.Active {
+			return
+		}
+		add(prop, class, f, a...)
+	}
 
 	// -- C44: channels created / released per server --
 	for s := 0; s < c42NS; s++ {
@@ -296,9 +320,9 @@ func c42Compare(sc *c42Scenario, ev c42Ev, exp *c42Exp, obs *c42Obs) (fails []c4
 					add("C42", kind+"-error-detail/"+evk, "%s: error_detail present=%v, expected %v: %v", where, q.Err, a.Nack, q)
 				}
 				if !c42EqStrs(q.Names, a.Names) {
-					add("C42", kind+"-names/"+evk, "%s: %s must list the subscribed names %v, saw %v", where, kind, a.Names, q)
+					addName(sk.Srv, "C42", kind+"-names/"+evk, "%s: %s must list the subscribed names %v, saw %v", where, kind, a.Names, q)
 					if c42HasStale(q.Names, [][]string{a.Names}) {
-						add("C43", "unwatched-name-still-requested/"+evk, "%s: request lists a name nobody watches any more: want %v, saw %v", where, a.Names, q)
+						addName(sk.Srv, "C43", "unwatched-name-still-requested/"+evk, "%s: request lists a name nobody watches any more: want %v, saw %v", where, a.Names, q)
 					}
 				}
 			}
@@ -355,9 +379,9 @@ func c42Compare(sc *c42Scenario, ev c42Ev, exp *c42Exp, obs *c42Obs) (fails []c4
 				}
 			}
 			if !ok {
-				add("C42", "request-names/"+evk, "%s: names %v are no subscription set of any instant of this step (sets in model order: %v)", where, q.Names, g.Snaps)
+				addName(sk.Srv, "C42", "request-names/"+evk, "%s: names %v are no subscription set of any instant of this step (sets in model order: %v)", where, q.Names, g.Snaps)
 				if c42HasStale(q.Names, g.Snaps) {
-					add("C43", "unwatched-name-still-requested/"+evk, "%s: request lists a name nobody watches any more: sets of this step %v, saw %v", where, g.Snaps, q)
+					addName(sk.Srv, "C43", "unwatched-name-still-requested/"+evk, "%s: request lists a name nobody watches any more: sets of this step %v, saw %v", where, g.Snaps, q)
 				}
 				continue
 			}
@@ -374,9 +398,9 @@ func c42Compare(sc *c42Scenario, ev c42Ev, exp *c42Exp, obs *c42Obs) (fails []c4
 		}
 		must := !g.Closing && ((g.NewStream && len(final) > 0) || (!g.NewStream && len(g.Snaps) > 1))
 		if must && (len(qs) == 0 || !c42EqStrs(qs[len(qs)-1].Names, final)) {
-			add("C42", "request-names-final/"+evk, "%s: at quiescence the last request must list %v (sets of this step: %v), saw %v", where, final, g.Snaps, qs)
+			addName(sk.Srv, "C42", "request-names-final/"+evk, "%s: at quiescence the last request must list %v (sets of this step: %v), saw %v", where, final, g.Snaps, qs)
 			if len(g.Snaps) > 1 && len(final) < len(g.Snaps[0]) {
-				add("C43", "name-not-unsubscribed-after-last-unwatch/"+evk, "%s: the last watcher of a name was removed; the next request must list %v (sets of this step: %v), saw %v", where, final, g.Snaps, qs)
+				addName(sk.Srv, "C43", "name-not-unsubscribed-after-last-unwatch/"+evk, "%s: the last watcher of a name was removed; the next request must list %v (sets of this step: %v), saw %v", where, final, g.Snaps, qs)
 			}
 		}
 	}
@@ -952,9 +976,9 @@ func c42FeatFor(prop, f string) bool {
 }
 
 func TestVerif_C42_ADS(t *testing.T) {
-	c42Leg(t, "c42_ads", []string{"C42", "C43"}, func(sc *c42Scenario) bool { return sc.NServers == 1 })
+	c42Leg(t, "c42_ads", []string{"C42", "C43"}, func(sc *c42Scenario) bool { return c42Has(sc.Props, "C42") || c42Has(sc.Props, "C43") })
 }
 
 func TestVerif_C44_Fallback(t *testing.T) {
-	c42Leg(t, "c44_fallback", []string{"C44"}, func(sc *c42Scenario) bool { return sc.NServers > 1 })
+	c42Leg(t, "c44_fallback", []string{"C44"}, func(sc *c42Scenario) bool { return c42Has(sc.Props, "C44") })
 }
